@@ -8,6 +8,7 @@ specification admits and nothing else is emitted; every payload delivery writes 
 identical bytes and sends nothing; control traffic never writes an interface; at the end of a run every frame was
 delivered exactly once to exactly the peers it was sent to."""
 import vplib as V
+from checks import cloudcommon
 from checks import fwdcommon as F
 
 PID = "C10"
@@ -42,6 +43,7 @@ def run(tier, out):
                 "(mode, nodes, runs); distinct = exported transitions" % (len(scheds), plans),
         "self_test": st,
     }
+    cloudcommon.part(PID, tier, out, cov)
     return out.finish("model_checking", cov, assumptions=[
         "payload datagrams are delivered within the second they were sent (a datagram delayed across housekeeping ticks may be refused by the replay window, C03)",
         "the mesh is fully connected and stable apart from explicit leave events; MockDevice is always a TUN device, modes are set explicitly"])
